@@ -103,7 +103,9 @@ def judge(case):
                     raise Violation(exc_bucket(e), f"make_readable_bulk with invalid entry ({t!r}, {b!r}) raised {e!r}")
                 if len(out) != 3:
                     raise Violation("bulk-length", f"bulk returned {len(out)} results for 3 entries (invalid entry ({t!r}, {b!r}))")
-                if out[1][1] != "invalid color" or not (out[1][0] is t or out[1][0] == t or (out[1][0] != out[1][0] and t != t)):
+                status = out[1][1]
+                reported_invalid = isinstance(status, str) and "invalid" in status.lower() and status not in ("readable", "very readable")
+                if not reported_invalid or not (out[1][0] is t or out[1][0] == t or (out[1][0] != out[1][0] and t != t)):
                     raise Violation("bulk-invalid-entry-report", f"bulk reported {out[1]!r} for invalid entry ({t!r}, {b!r})")
                 if out[0][1] != "readable" or out[2] != ("#000000", "very readable"):
                     raise Violation("bulk-neighbours-disturbed", f"bulk neighbours of invalid entry ({t!r}, {b!r}) came out as {out[0]!r}, {out[2]!r}")
